@@ -24,6 +24,9 @@ func c07Window(F int64, m int64, M int64, c int64) {
 func c07Inv(bf *BufferedFile, F int64, what string) {
 	m, M := bf.minOffset, bf.maxOffset
 	if !(0 <= m && m <= M && M <= F) {
+		vNoteInt("newmin", int(m))
+		vNoteInt("newmax", int(M))
+		vNoteInt("size", int(F))
 		vFail(what + ": window bounds violate 0 <= min <= max <= size")
 	}
 	if !(M-m <= 4096) {
@@ -69,8 +72,6 @@ func vLazyWindow(n int, base int64, valid int64, junk byte) []byte {
 	return b
 }
 
-func vfsAbstractFile(size int64) *os.File { return nil }
-func vfsReadAtCalls(f *os.File) int     { return 0 }
 
 // op 0: Seek(off, SeekStart) with 0 <= off <= F; op 1: Seek(0, SeekCurrent); op 2: Read(p), 1 <= len(p) <= k
 func VerifC07Step(op int, k int, twin int) {
@@ -85,6 +86,9 @@ func VerifC07Step(op int, k int, twin int) {
 	vNoteInt("max", int(M))
 	vNoteInt("cur", int(c))
 	f := vfsAbstractFile(F)
+	for _, x := range []int64{0, m, M, c, F} {
+		vfsAbstractTouch(f, F, x)
+	}
 	bf := c07Make(F, m, M, c, f)
 	if twin != 0 {
 		vFail("TWIN reached the step")
@@ -94,6 +98,7 @@ func VerifC07Step(op int, k int, twin int) {
 		off := int64(vInt("off"))
 		vAssume(off >= 0 && off <= F)
 		vNoteInt("off", int(off))
+		vfsAbstractTouch(f, F, off)
 		n, err := bf.Seek(off, io.SeekStart)
 		if err != nil || n != off || bf.currentOffset != off {
 			vFail("Seek(off, SeekStart) does not position at off")
@@ -142,6 +147,8 @@ func VerifC07New() {
 	vNote("source", "NewBufferedFile")
 	vNoteInt("F", int(F))
 	f := vfsAbstractFile(F)
+	vfsAbstractTouch(f, F, 0)
+	vfsAbstractTouch(f, F, F)
 	bf := NewBufferedFile(f, F)
 	if F == 0 {
 		if bf.minOffset != 0 || bf.maxOffset != 0 || bf.currentOffset != 0 {
@@ -169,6 +176,9 @@ func VerifC07Reader(useReadAt int, maxLen int) {
 	vNoteInt("off", off)
 	vNoteInt("len", n)
 	f := vfsAbstractFile(F)
+	for _, x := range []int64{0, int64(off), F} {
+		vfsAbstractTouch(f, F, x)
+	}
 	r := &Reader{contents: NewBufferedFile(f, F), offset: 0, size: int(F)}
 	var got string
 	if useReadAt != 0 {
@@ -195,10 +205,102 @@ func VerifC07Reader(useReadAt int, maxLen int) {
 	back := vInt("back")
 	vAssume(back >= 0 && back <= off)
 	vNoteInt("back", back)
+	vfsAbstractTouch(f, F, int64(back))
 	got2 := r.ReadAt(1, back)
 	if int64(back) < F {
 		if len(got2) != 1 || got2[0] != byte(back) {
 			vFail("a backward read returned a byte that is not the byte of the file at that offset")
 		}
+	}
+}
+
+// ---- boundary-class variant of the inductive step ----
+// Same pre-state space, but every quantity that is RELATIVE to the window (offset inside the window,
+// window fill, distance from the window end to the end of the file, read length) is one of a finite list
+// of boundary classes and therefore concrete on each path, while the ABSOLUTE position of the window in
+// the file stays symbolic. The buffer is then an ordinary array of 4096 terms, so the step also works for
+// implementations that use copy() and sub-slices of the buffer (which the lazily defined window above
+// cannot execute). Classes: offset-in-window {0,1,2047,2048,4094,4095,4096}, bytes after the window
+// {0,1,3,2047,2048,2049,5000}, short files (window = whole file) of size {1,2,100,4095}.
+
+var c07InWin = []int64{0, 1, 2047, 2048, 4094, 4095, 4096}
+var c07After = []int64{0, 1, 3, 2047, 2048, 2049, 5000}
+var c07Short = []int64{1, 2, 100, 4095}
+
+func VerifC07StepClassesCount() int { return len(c07InWin)*len(c07After) + len(c07Short) }
+
+func VerifC07StepClasses(class int, op int, k int) {
+	var m, M, F, c int64
+	if class < len(c07InWin)*len(c07After) {
+		in := c07InWin[class/len(c07After)]
+		after := c07After[class%len(c07After)]
+		m = int64(vInt("min"))
+		vAssume(m >= 0 && m < (1<<40))
+		M = m + 4096
+		F = M + after
+		c = m + in
+	} else {
+		F = c07Short[class-len(c07InWin)*len(c07After)]
+		m, M = 0, F
+		c = []int64{0, 1, F / 2, F - 1, F}[vPick("cur", 5)]
+	}
+	vNote("source", "BufferedFile step (boundary classes) op "+string(rune('0'+op)))
+	vNoteInt("F", int(F))
+	vNoteInt("min", int(m))
+	vNoteInt("cur", int(c))
+	f := vfsAbstractFile(F)
+	for _, x := range []int64{0, m, M, c, F} {
+		vfsAbstractTouch(f, F, x)
+	}
+	buf := make([]byte, 4096)
+	for i := int64(0); i < M-m; i++ {
+		buf[i] = byte(m + i)
+	}
+	bf := &BufferedFile{file: f, fileSize: F, buffer: buf, bufferSize: 4096, minOffset: m, maxOffset: M, currentOffset: c}
+	check := func(what string) {
+		c07Inv(bf, F, what)
+		// content at the window boundaries and in the middle
+		w := bf.maxOffset - bf.minOffset
+		for _, j := range []int64{0, 1, 2, 2047, 2048, 4094, 4095} {
+			if j < w && bf.buffer[j] != byte(bf.minOffset+j) {
+				vNoteInt("j", int(j))
+				vFail(what + ": buffer does not hold the bytes of the file at a window position")
+			}
+		}
+	}
+	switch op {
+	case 0:
+		// seek one byte back (anchors), to the start, to an arbitrary earlier/later offset
+		off := int64(vInt("off"))
+		vAssume(off >= 0 && off <= F)
+		vfsAbstractTouch(f, F, off)
+		n, err := bf.Seek(off, 0)
+		if err != nil || n != off || bf.currentOffset != off {
+			vFail("Seek(off, SeekStart) does not position at off")
+		}
+		check("after Seek")
+		if off < F && !(bf.minOffset <= off && off < bf.maxOffset) {
+			vFail("after Seek the window does not contain the offset")
+		}
+	case 1:
+		ln := 1 + vPick("len", k)
+		if c+int64(ln) > F {
+			return
+		}
+		p := make([]byte, ln)
+		n, err := bf.Read(p)
+		if err != nil || n != ln {
+			vFail("Read within the file does not return len(p) bytes")
+		}
+		if bf.currentOffset != c+int64(ln) {
+			vFail("Read does not advance the offset by len(p)")
+		}
+		for i := 0; i < ln; i++ {
+			if p[i] != byte(c+int64(i)) {
+				vNoteInt("i", i)
+				vFail("Read returned a byte that is not the byte of the file at that offset")
+			}
+		}
+		check("after Read")
 	}
 }
